@@ -58,8 +58,13 @@ def _int_value(r):
 
 
 def _body(r):
-    ln = r.choice([0, 1, 2, 3, 5, 16, 32, 65, 126, 127, 128, 129, 255, 256,
-                   257, 300]) if r.random() < 0.9 else r.choice([65535, 65536])
+    c = r.random()
+    if c < 0.45:
+        ln = r.choice([0, 1, 1, 2, 2, 3, 4, 5])
+    elif c < 0.9:
+        ln = r.choice([16, 32, 65, 126, 127, 128, 129, 255, 256, 257, 300])
+    else:
+        ln = r.choice([65535, 65536])
     return r.randbytes(ln)
 
 
@@ -315,6 +320,14 @@ def execute(prog):
                 return out
             continue
         core.bump(out["probes"], "accepted_after_fault")
+        if not _model_accepts(it, data):
+            out["violation"] = core.violation(
+                ID, "canonical", t + "-strict-decoder-rejects",
+                "accepted %s as %r, but an independent strict DER decoder "
+                "rejects it (non-canonical) [%s]" % (
+                    data.hex()[:200], val, "; ".join(descr)),
+                dict(item=it, delivered=data.hex()[:400]))
+            return out
         consumed_len = len(data) - len(rest)
         if consumed_len < 0 or data[consumed_len:] != rest:
             out["violation"] = core.violation(
